@@ -338,7 +338,9 @@ C02Why(e) ==
          ELSE IF e.outfault # "none" THEN "wild-pointer"
          ELSE IF e.decerr # "none" /\ ~e.haserr THEN "decerr"
          ELSE IF e.haserr THEN ""
-         ELSE IF SameValue(e.in, e.out, {}) THEN "" ELSE "decoded graph has a different unfolding"
+         \* the shape is what is judged here: the two named numeric deviations of leaves are property C01's
+         ELSE IF SameValue(e.in, e.out, {"bigfloat-precision", "long-wrap"}) THEN ""
+         ELSE "decoded graph has a different unfolding"
 
 \* C05: decoding from a fragmenting reader (b) gives what decoding the contiguous bytes (a) gives
 C05Why(e) ==
